@@ -128,6 +128,7 @@ def run(prop, mod, specs=None, only=None):
     if not specs:
         return res
     jobs = [(prop, mod.__name__, s) for s in specs]
+    os.environ.setdefault("PLINT_SCRATCH_ID", "st%d" % os.getpid())      # one private scratch fact cache for this run's workers
     with ProcessPoolExecutor(max_workers=min(16, len(jobs))) as ex:
         outs = list(ex.map(_one, jobs))
     for spec, (sid, status, msg) in zip(specs, outs):
@@ -144,7 +145,7 @@ def run(prop, mod, specs=None, only=None):
         else:
             res["failed"].append("%s: %s" % (sid, msg))
     # scratch fact cache is disposable
-    shutil.rmtree(os.path.join(units.WORK, "facts-st"), ignore_errors=True)
+    shutil.rmtree(os.path.join(units.WORK, "facts-st-%s" % os.environ.get("PLINT_SCRATCH_ID", os.getpid())), ignore_errors=True)
     print("self-test %s: %d mutants, %d neutral edits, %d ok, %d skipped, %d failed" %
           (prop, res["mutants"], res["neutral"], res["ok"], len(res["skipped"]), len(res["failed"])))
     for d in res["details"]:
